@@ -355,47 +355,48 @@ class Crazyflie():
             raise Exception('Data part of packet is too large')
 
         self._send_lock.acquire()
-        # The link can be closed and opened again by other threads while we are
-        # in here, look at it (and its pending answers) once
-        link = self.link
-        answer_patterns = self._answer_patterns
-        if link is not None:
-            if len(expected_reply) > 0 and not resend and \
-                    link.needs_resending:
-                pattern = (pk.header,) + expected_reply
-                logger.debug(
-                    'Sending packet and expecting the %s pattern back',
-                    pattern)
-                new_timer = Timer(timeout,
-                                  lambda: self._no_answer_do_retry(pk,
-                                                                   pattern,
-                                                                   timeout))
-                new_timer.request = pk
-                answer_patterns[pattern] = new_timer
-                new_timer.start()
-            elif resend:
-                # Check if we have gotten an answer, if not try again
-                pattern = expected_reply
-                pending = answer_patterns.get(pattern)
-                if pending is not None and pending.request is pk:
-                    logger.debug('We want to resend and the pattern is there')
-                    if answer_patterns[pattern]:
-                        new_timer = Timer(timeout,
-                                          lambda:
-                                          self._no_answer_do_retry(
-                                              pk, pattern, timeout))
-                        new_timer.request = pk
-                        answer_patterns[pattern] = new_timer
-                        new_timer.start()
-                else:
-                    # Answered (or the link was closed) in the meantime
-                    logger.debug('Resend requested, but no pattern found: %s',
-                                 answer_patterns)
-                    self._send_lock.release()
-                    return
-            link.send_packet(pk)
-            self.packet_sent.call(pk)
-        self._send_lock.release()
+        try:
+            # The link can be closed and opened again by other threads while we are
+            # in here, look at it (and its pending answers) once
+            link = self.link
+            answer_patterns = self._answer_patterns
+            if link is not None:
+                if len(expected_reply) > 0 and not resend and \
+                        link.needs_resending:
+                    pattern = (pk.header,) + expected_reply
+                    logger.debug(
+                        'Sending packet and expecting the %s pattern back',
+                        pattern)
+                    new_timer = Timer(timeout,
+                                      lambda: self._no_answer_do_retry(pk,
+                                                                       pattern,
+                                                                       timeout))
+                    new_timer.request = pk
+                    answer_patterns[pattern] = new_timer
+                    new_timer.start()
+                elif resend:
+                    # Check if we have gotten an answer, if not try again
+                    pattern = expected_reply
+                    pending = answer_patterns.get(pattern)
+                    if pending is not None and pending.request is pk:
+                        logger.debug('We want to resend and the pattern is there')
+                        if answer_patterns[pattern]:
+                            new_timer = Timer(timeout,
+                                              lambda:
+                                              self._no_answer_do_retry(
+                                                  pk, pattern, timeout))
+                            new_timer.request = pk
+                            answer_patterns[pattern] = new_timer
+                            new_timer.start()
+                    else:
+                        # Answered (or the link was closed) in the meantime
+                        logger.debug('Resend requested, but no pattern found: %s',
+                                     answer_patterns)
+                        return
+                link.send_packet(pk)
+                self.packet_sent.call(pk)
+        finally:
+            self._send_lock.release()
 
     def is_called_by_incoming_handler_thread(self):
         return current_thread() == self.incoming
